@@ -150,6 +150,15 @@ MUTANTS = [
     m('C13', 'rda_reuses_returned_marginals_buffer', (INF, "        w = v = model.belief_propagation(theta)\n        beta = 0\n", "        w = v = model.belief_propagation(theta)\n        if hasattr(self, '_w') and set(self._w) == set(w):\n            for cl in w: np.copyto(self._w[cl].values, w[cl].values)\n        self._w = w\n        beta = 0\n"), (INF, "        model.marginals = w\n        model.potentials = model.mle(w) ", "        model.marginals = self._w = w\n        model.potentials = model.mle(w) ")),
     m('C13', 'zeros_spec_normalised_in_place', (INF, "        self.structural_zeros = CliqueVector({})\n        for cl in structural_zeros:", "        self.structural_zeros = CliqueVector({})\n        for cl in list(structural_zeros):\n            structural_zeros[cl] = sorted(structural_zeros[cl])\n        for cl in structural_zeros:")),
     m('C13', 'stepsize_option_sticky', (INF, "        options['callback'] = callback\n        if callback is None and self.log:", "        self._opts = dict(getattr(self, '_opts', {}), **options); options = self._opts\n        options['callback'] = callback\n        if callback is None and self.log:")),
+    # ---- C11 ------------------------------------------------------------
+    m('C11', 'revert_F1_groupby_columns', (GM, "df = df.groupby(list(proj), group_keys=False)[list(cols)].apply(foo)", "df = df.groupby(list(proj), group_keys=False).apply(foo)")),
+    m('C11', 'rows_rounded_not_truncated', (GM, "        total = int(self.total) if rows is None else rows", "        total = int(round(self.total)) if rows is None else rows")),
+    m('C11', 'conditioning_on_all_used', (GM, "            relevant = used.intersection(set.union(*relevant))", "            relevant = set(list(used)[:1])")),
+    m('C11', 'round_mode_samples_remainder_with_replacement', (GM, "                idx = np.random.choice(counts.size, extra, False, frac / frac.sum())", "                idx = np.random.choice(counts.size, extra, True, frac / frac.sum())")),
+    m('C11', 'round_mode_falls_back_to_sampling', (GM, "            if method == 'sample':\n                probas", "            if method == 'sample' or total > 5000:\n                probas")),
+    m('C11', 'uniform_remainder', (GM, "                idx = np.random.choice(counts.size, extra, False, frac / frac.sum())", "                idx = np.random.choice(counts.size, extra, False)")),
+    m('C11', 'first_column_from_uniform', (GM, "        marg = self.project([col]).datavector(flatten=False)\n        df.loc[:,col] = synthetic_col(marg, total)", "        marg = self.project([col]).datavector(flatten=False)\n        df.loc[:,col] = synthetic_col(np.ones_like(marg), total)")),
+    m('C11', 'no_shuffle_no_problem_but_values_offset', (GM, "            vals = np.repeat(np.arange(counts.size), integ)", "            vals = np.repeat(np.arange(counts.size), integ) + (counts.size > 3)")),
 ]
 
 
